@@ -417,7 +417,7 @@ func classifyA(c CaseA) core.Class {
 func TestC20a(t *testing.T) {
 	core.Run(t, core.Spec[CaseA]{
 		Property: "C20", Sub: "a",
-		Rule: "source files written from the grammar (all main-mode token kinds, # // /* */ comments, quoted templates and <<X / <<-X heredocs with interpolations, if/for directives and ~ markers, blocks with 0-2 quoted or bare labels, one-line blocks, odd spacing, tabs, blank lines, LF or CRLF, with or without final newline) or noisy renderings of schema instances (C19 renderer, with dynamic blocks); sources that hclsyntax rejects are skipped and counted. Oracle: one or two different files per case, every []byte returned by Tokens.Bytes / File.Bytes / Format / Body, Expression and Traversal token serialisations is retained and must stay what it was after every later call and into the next case; P1: token stream of hclwrite.ParseConfig's tree == source with the space/tab runs between scanner tokens turned into spaces, File.Bytes()==Format(src); P2: Format keeps every token (type, bytes), leaves only spaces between tokens, is idempotent, output parses to the same tree (ranges ignored) and every attribute evaluates to the same value. Non-trivial: the file has a heredoc, a comment or a template sequence; distinct = (origin, heredoc, comment, template, CRLF, missing final newline, hash of token-feature set mod 16)",
+		Rule: "source files written from the grammar (all main-mode token kinds, # // /* */ comments, quoted templates and <<X / <<-X heredocs with interpolations, if/for directives and ~ markers, blocks with 0-2 quoted or bare labels, one-line blocks, odd spacing, tabs, blank lines, LF or CRLF, with or without final newline) or noisy renderings of schema instances (C19 renderer, with dynamic blocks); sources that hclsyntax rejects are skipped and counted. Oracle: one or two different files per case, every []byte returned by Tokens.Bytes / File.Bytes / Format / Body, Expression and Traversal token serialisations is retained and must stay what it was after every later call and into the next case; P1: token stream of hclwrite.ParseConfig's tree == source with the space/tab runs between scanner tokens turned into spaces, File.Bytes()==Format(src); P2: Format keeps every token (type, bytes), leaves only spaces between tokens, is idempotent, output parses to the same tree (ranges ignored) and every attribute evaluates to the same value. Non-trivial: the file has a heredoc, a comment or a template sequence; distinct = (origin, heredoc, comment, template, CRLF, missing final newline, hash of token-feature set mod 16). In about half of the cases the caller reuses its input buffers (labels input:caller-reuses-buffer|fill-0xAA / other-source-bytes / next-source-parsed, the other half input:caller-leaves-buffer-alone): as soon as a parsing entry point has returned, the []byte that was passed to it is filled with 0xAA, or overwritten with the bytes of a different generated source of the same length, or truncated and the next source read into the same backing array and parsed; everything obtained from the call is used only after that and must be what it is in the other half (oracles work on a private copy of the text taken before the call). Here: the buffers given to hclwrite.ParseConfig + hclsyntax.ParseConfig (reused before the writer file is serialised for P1 and before the native tree is dumped/evaluated for P2), to Format, and the caller's copy of the formatted text given to hclsyntax.ParseConfig; every writer file loaded in the case is held until all files are loaded and File.Bytes() must then still equal Format(src)",
 		Gen:  genA, Check: checkA, Classify: classifyA,
 		Assumptions: []string{
 			"hclsyntax.ParseConfig decides what a syntactically valid file is; hclsyntax.LexConfig token ranges decide what lies between tokens",
